@@ -188,3 +188,5 @@ def run(ctx):
     r.require_min(1)
     c08.rule_roundup(ctx, P)
     c15.rule_zero_fill(ctx, P)
+    ctx.borrow('c01', ['R01d'], 'kernel bytes left unprocessed change the parity bytes of every stripe')
+    ctx.borrow('c08', ['R08a'], 'a caller-supplied word size must not change the fragment geometry')
